@@ -137,6 +137,8 @@ def validate_recorder_finish(ctx, procs):
 
 
 def run(ctx):
+    from .. import xfeat
+    xfeat.sweep(ctx, "C06")      # cross-feature compositions (pv/xfeat.py)
     children = validate_recorder_start(3)
     progs = E.depth1_programs(include_fxp=True) + extra_programs()
     tasks = []
@@ -190,6 +192,9 @@ class _Ctx:
 
 
 def replay(case):
+    if isinstance(case, dict) and case.get("xfeat"):
+        from .. import xfeat
+        return xfeat.replay(case, "C06")
     if "keys" in case:
         c = _Ctx()
         validate_recorder_finish(c, validate_recorder_start(3))
